@@ -1,24 +1,41 @@
 #!/bin/bash
-# new_mutant_task.sh <PROP> <SUFFIX>  - prepare a scratch worktree + self-contained prompt for a sub-agent (round >= 2)
-P=$1; S=$2; ID=$P$S; W=/tmp/mut/$ID
-mkdir -p /tmp/mut
+# new_mutant_task.sh <PROP> <SUFFIX> [hint]  - prepare a scratch worktree + self-contained prompt for a sub-agent
+# prints the prompt file path; the prompt contains the property text only (nothing from /verif besides it)
+P=$1; S=$2; HINT=${3:-}; ID=$P$S; W=/tmp/mut/$ID
+mkdir -p /tmp/mut /tmp/mut/$ID.out
+git -C /repo worktree prune
 git -C /repo worktree add --detach $W HEAD >/dev/null 2>&1 || { echo "worktree failed"; exit 1; }
-python3 - "$P" "$ID" <<'PY'
+python3 - "$P" "$ID" "$HINT" <<'PY'
 import json,sys,os
-P,ID=sys.argv[1],sys.argv[2]
+P,ID,HINT=sys.argv[1],sys.argv[2],sys.argv[3]
 prop=[json.loads(l) for l in open('/verif/properties.jsonl') if json.loads(l)['id']==P][0]
-json.dump(prop,open('/tmp/mut/%s.property.json'%ID,'w'),indent=1)
-tmpl=open('/tmp/mut/C01.prompt').read()
-old=json.load(open('/tmp/mut/C01.property.json'))
-tmpl=tmpl.replace(json.dumps(old,indent=1),json.dumps(prop,indent=1))
-tmpl=tmpl.replace('/tmp/mut/C01.property.json','/tmp/mut/%s.property.json'%ID).replace('/tmp/mut/C01.out','/tmp/mut/%s.out'%ID).replace('/tmp/mut/C01','/tmp/mut/%s'%ID).replace('"property": "C01"','"property": "%s"'%P)
+W='/tmp/mut/'+ID; O=W+'.out'
+t=f"""You are helping to evaluate a verification effort for the C++17 library xsco/libdjinterop (reads and writes Denon Engine DJ SQLite libraries). Your job: produce ONE realistic source change ("seeded change") to the library that BREAKS the semantic property below while the library still compiles and its whole existing test suite still passes - the kind of regression a plausible refactoring, optimisation or 'hardening' commit could introduce and code review could miss.
+
+The property (this text is all you get about the verification effort; do NOT read anything under /verif, it is off limits):
+
+{json.dumps(prop,indent=1)}
+
+Your scratch git worktree of the library is {W} (detached HEAD; work only there; never touch /repo or /verif; never commit).
+
+Requirements for the change:
+ * It must need something SPECIFIC to manifest - a particular multi-step sequence of operations, an unusual input or value range, a fault at a particular point, a particular schema version, or two cooperating sites that each look fine alone. NOT something ordinary use or the existing tests would expose at once.
+ * It must look like a plausible commit (small, tidy, with an innocent rationale), touch only files under src/ or include/ (not tests, not ext/), and must not add new public API.
+ * Build: cd {W} && cmake -S . -G Ninja -B _build -DCMAKE_BUILD_TYPE=RelWithDebInfo >/dev/null && cmake --build _build -j6 . Test: ctest --test-dir _build -j6 --timeout 900 . ALL tests must still pass with your change (9 ctest targets).
+ * Write a demonstration: {O}/demo.cpp (uses the library, preferably only its public API under include/; src/ internal headers are acceptable if the property is about internal codecs/tables) and {O}/demo.sh taking the worktree path as $1, which compiles demo.cpp against $1/_build/libdjinterop.so (c++ -std=c++17 -I$1/include -I$1/_build/include -I$1/_build [-I$1/src -I$1/ext/sqlite_modern_cpp] ... -L$1/_build -ldjinterop -lsqlite3 -lz -Wl,-rpath,$1/_build), runs it, and exits non-zero (printing FAIL...) WITH your change and 0 (printing PASS) WITHOUT it. Verify both yourself (git diff > {O}/p.diff; git apply -R {O}/p.diff; rebuild; run; git apply {O}/p.diff; rebuild - do NOT use git stash: the stash is shared with other worktrees of the same repository and other agents work in them). Use mktemp directories for any database it creates and clean them up.
+ * Finally write {O}/patch.diff (output of `git diff` in the worktree, change left applied and built in the worktree) and {O}/meta.json with keys: "property": "{P}", "summary" (what the change does and why it looks innocent), "needs_to_manifest" (the specific condition), "files_changed" (list), "tests_run" (the ctest summary line you observed with the change).
+ * Keep disk use small; remove temporary build directories of the demo. Do not leave background processes.
+
+Reply with a short summary: the change, the manifest condition, and the observed ctest / demo results.
+"""
 prev=[]
 for d in sorted(os.listdir('/verif/seeded')):
     if d.startswith(P+'-'):
-        try: prev.append(json.load(open('/verif/seeded/%s/meta.json'%d))['summary'][:500])
+        try: prev.append(json.load(open('/verif/seeded/%s/meta.json'%d))['summary'][:400])
         except Exception: pass
 if prev:
-    tmpl+='\n\nAn earlier round already produced the following change(s) for this property; choose a DIFFERENT mechanism, code site and (if the property spans several schema generations or components) preferably a different one:\n'+'\n'.join(' - '+p for p in prev)+'\n'
-open('/tmp/mut/%s.prompt'%ID,'w').write(tmpl)
+    t+='\n\nEarlier rounds already produced the following change(s) for this property; choose a DIFFERENT mechanism and code site (and, if the property spans several schema generations or components, preferably a different one):\n'+'\n'.join(' - '+p for p in prev)+'\n'
+if HINT: t+='\nPreference for this round: '+HINT+'\n'
+open('/tmp/mut/%s.prompt'%ID,'w').write(t)
 PY
-echo "$W ready; prompt /tmp/mut/$ID.prompt"
+echo "/tmp/mut/$ID.prompt"
